@@ -12,6 +12,13 @@ CLAIMED = {
             "against an independent parse of data/*.dat and of the #defines; the space is finite so nothing is sampled.",
             "trusts glibc strtod/printf, meson build, the harness' own 150-line parser; group line macros are left to C10, Auger to C11",
             "DESIGN.md 2/C01"),
+    "C02": ("structured enumeration of every knot interval + seeded interior fractions + end-straddling points against an independent cubic-spline evaluation (differential oracle)",
+            "Every interval of every interpolation table (1.7M evaluations incl. Compton profiles per shell and, in configuration B, the Kissel "
+            "sub-shell tables with their edge/extension region) is compared to 1e-12 with a textbook spline over independently parsed knots; "
+            "outside the range an error is required.",
+            "same libm as the library (log/exp), knots rounded to the 11 digits the build keeps; intervals next to the one non-monotone abscissa step "
+            "(CS_Photo Z=96) excluded; the 1e-7 guard band above the last knot accepts both outcomes",
+            "DESIGN.md 2/C02"),
     "C10": ("exhaustive enumeration Z x group macro; reference average recomputed from member lines selected by name (differential oracle)",
             "All Z x {KA,KB,LA,LB, 7 doublets, KO, KP} energies and {KA,KB,LA} rates plus all 39 Siegbahn aliases are compared (1e-13) with the "
             "weighted/plain mean over members chosen by parsing line names; finite space, nothing sampled.",
